@@ -25,6 +25,10 @@ Section Implicit.
     fun i j => sumn n (fun k => A i k * B k j).
   Definition eye : Mat := fun i j => delta i j.
   Definition blk (A : Mat) (r0 c0 : nat) : Mat := fun i j => A (r0 + i)%nat (c0 + j)%nat.
+  (** materialise an n x m array (numpy arrays are materialised; keeps execution polynomial) *)
+  Definition memo2 (n m : nat) (f : Mat) : Mat :=
+    let l := map (fun i => tab m (f i)) (seq 0 n) in
+    fun i j => nth j (nth i l []) 0.
 
   (** Configuration of one [PrimitiveEquations] instance (vertical part). *)
   Record PEcfg := mkPE {
@@ -163,29 +167,36 @@ Section Implicit.
     let stacked_inverse := matvec (2 * K + 1) inverse (stack K x) in
     unstack K stacked_inverse.
 
-  (** I - GH and I - HG of the 'blockwise' branch *)
-  Definition schur_div (c : PEcfg) (eta lam : F) : Mat :=
-    let K := cK c in let M := implicit_matrix c eta lam in
+  (** the same matrix, materialised (used where entries are read many times) *)
+  Definition implicit_matrix_tab (c : PEcfg) (eta lam : F) : Mat :=
+    memo2 (2 * cK c + 1) (2 * cK c + 1) (implicit_matrix c eta lam).
+
+  (** I - GH and I - HG of the 'blockwise' branch, from the assembled matrix M *)
+  Definition schur_div_of (K : nat) (M : Mat) : Mat :=
     fun i j => eye i j - matmul (K + 1) (blk M 0 K) (blk M K 0) i j.
-  Definition schur_temp_logp (c : PEcfg) (eta lam : F) : Mat :=
-    let K := cK c in let M := implicit_matrix c eta lam in
+  Definition schur_temp_logp_of (K : nat) (M : Mat) : Mat :=
     fun i j => eye i j - matmul K (blk M K 0) (blk M 0 K) i j.
+  Definition schur_div (c : PEcfg) (eta lam : F) : Mat :=
+    schur_div_of (cK c) (implicit_matrix_tab c eta lam).
+  Definition schur_temp_logp (c : PEcfg) (eta lam : F) : Mat :=
+    schur_temp_logp_of (cK c) (implicit_matrix_tab c eta lam).
 
   Definition inverse_blockwise (inv : nat -> Mat -> Mat) (c : PEcfg) (eta lam : F) (x : Col) : Col :=
     let K := cK c in
-    let M := implicit_matrix c eta lam in
-    let div_inverse := inv K (schur_div c eta lam) in
+    let M := implicit_matrix_tab c eta lam in
+    let div_inverse := inv K (schur_div_of K M) in
     let gt := geo_diff true c (c_temp x) in
     let div_from_temp := fun g => eta * lam * gt g in
     let div_from_logp := matvec 1 (blk M 0 (2 * K)) (lnps_vec x) in
     let inverted_divergence :=
-      matvec K div_inverse (fun g => c_div x g - div_from_temp g - div_from_logp g) in
-    let temp_logp_inverse := inv (K + 1)%nat (schur_temp_logp c eta lam) in
+      matvec K div_inverse (memo K (fun g => c_div x g - div_from_temp g - div_from_logp g)) in
+    let temp_logp_inverse := inv (K + 1)%nat (schur_temp_logp_of K M) in
     let hd := fun g => - temp_implicit true c (c_div x) g in
     let temp_from_div := fun g => eta * hd g in
-    let temp_part := fun g => c_temp x g - temp_from_div g in
+    let temp_part := memo K (fun g => c_temp x g - temp_from_div g) in
     let logp_from_div := matvec K (blk M (2 * K) 0) (c_div x) 0%nat in
-    let logp_part : nat -> F := fun _ => c_lnps x - logp_from_div in
+    let logp_part_value := c_lnps x - logp_from_div in
+    let logp_part : nat -> F := fun _ => logp_part_value in
     mkCol
       inverted_divergence
       (fun g => matvec K (blk temp_logp_inverse 0 0) temp_part g
